@@ -2,16 +2,13 @@
   The budget-prefix law (C04, C07, C18): what a consumer that pulls `k` errors and then closes
   the iterator sees is exactly the first `k` errors of the exhaustive run.
 
-  FINDING.  `Lawful` as defined below is NOT closed under the combinators in the sense of
-  `JS.Closed` (JS.Proofs.Framework): `Closed.stop` asks for `P (stopG s)` for *every* `s : Stop`,
-  and `Lawful (stopG .budget)` is false (field `nobudget`; see `not_lawful_stopG_budget` and
-  `lawfulClosed_counterexample`).  The model never builds `stopG .budget`, and `Lawful` is closed
-  under every combinator as soon as `stopG` is restricted to `s ≠ .budget`
-  (`lawfulClosed_partial`), but `P_eval` cannot be instantiated with `Lawful`.
+  `Lawful` is closed under the generator combinators (`lawfulClosed`), hence holds of the whole
+  evaluator (`lawful_eval`, via JS.Proofs.Framework).  `Closed.stop` is restricted to
+  `s ≠ .budget`: `stopG .budget` violates `nobudget` (`not_lawful_stopG_budget`) and is never
+  built by the model.
 
-  What is closed under all combinators is `Lawful` without its field `nobudget`: `PrefixLaw`
-  (fields `short` and `long`).  It holds of the whole evaluator (`prefixLaw_eval`) and is all that
-  C04 needs.  `Lawful g ↔ NoBudget g ∧ PrefixLaw g` (`lawful_iff`).
+  `PrefixLaw` (fields `short`, `long`) and `NoBudget` (field `nobudget`) are the two halves of
+  `Lawful` (`lawful_iff`); each is closed on its own, `PrefixLaw` even under `stopG .budget`.
 -/
 import JS.Proofs.Framework
 namespace JS
@@ -238,7 +235,7 @@ theorem prefixLaw_kwRef (env : Env) {rec : Rec} (hrec : ∀ i s, PrefixLaw (rec 
 
 theorem prefixLawClosed (env : Env) : Closed env PrefixLaw where
   emit := prefixLaw_emit
-  stop := prefixLaw_stopG
+  stop := fun s _ => prefixLaw_stopG s
   andThen := prefixLaw_andThen
   mapErrs := prefixLaw_mapErrs
   inner := fun b' k _ hk => prefixLaw_inner b' k hk
@@ -250,7 +247,7 @@ theorem prefixLaw_eval (env : Env) (impl : FmtImpl) (cfg : Cfg) (fuel : Nat) :
     ∀ i s, PrefixLaw (eval env impl cfg fuel i s) :=
   P_eval (prefixLawClosed env) impl cfg fuel
 
-/-! ### `nobudget`: closed under every combinator except `stopG .budget` -/
+/-! ### `nobudget`: closed under every combinator (`stopG s` for `s ≠ .budget`) -/
 
 theorem noBudget_emit (es : List Err) : NoBudget (emit es) := ⟨fun _ => nofun⟩
 
@@ -312,7 +309,7 @@ theorem noBudget_kwRef (env : Env) {rec : Rec} (hrec : ∀ i s, NoBudget (rec i 
   | arr _ => exact ⟨stopG (.raised (.crash "TypeError")), st, noBudget_stopG nofun, fun b => rfl⟩
   | obj _ => exact ⟨stopG (.raised (.crash "TypeError")), st, noBudget_stopG nofun, fun b => rfl⟩
 
-/-! ### `Lawful`: one lemma per combinator, and the one that fails -/
+/-! ### `Lawful`: one lemma per combinator -/
 
 theorem lawful_emit (es : List Err) : Lawful (emit es) :=
   lawful_iff.2 ⟨noBudget_emit es, prefixLaw_emit es⟩
@@ -342,37 +339,25 @@ theorem lawful_kwRef (env : Env) {rec : Rec} (hrec : ∀ i s, Lawful (rec i s))
   lawful_iff.2 ⟨noBudget_kwRef env (fun i s => (lawful_iff.1 (hrec i s)).1) ref inst,
     prefixLaw_kwRef env (fun i s => (hrec i s).prefixLaw) ref inst⟩
 
-/-- the statement that was to be proved; it is false (`lawfulClosed_counterexample`) -/
-def lawfulClosed_statement (env : Env) : Prop := Closed env Lawful
-
-/-- `stopG .budget` violates `nobudget`: its exhaustive run stops with `.budget` -/
+/-- `stopG .budget` violates `nobudget`: its exhaustive run stops with `.budget`
+    (this is why `Closed.stop` is restricted to `s ≠ .budget`) -/
 theorem not_lawful_stopG_budget : ¬ Lawful (stopG .budget) :=
   fun h => h.nobudget default rfl
 
-/-- `Lawful` is not `Closed`: `Closed.stop` demands `Lawful (stopG .budget)` -/
-theorem lawfulClosed_counterexample (env : Env) : ¬ lawfulClosed_statement env :=
-  fun H => not_lawful_stopG_budget (H.stop .budget)
+/-- `Lawful` is closed under the generator combinators -/
+theorem lawfulClosed (env : Env) : Closed env Lawful where
+  emit := lawful_emit
+  stop := fun _ hs => lawful_stopG hs
+  andThen := lawful_andThen
+  mapErrs := lawful_mapErrs
+  inner := fun b' k _ hk => lawful_inner b' k hk
+  withScope := lawful_withScope env
+  kwRef := fun hrec ref inst => lawful_kwRef env hrec ref inst
 
-/-- `Lawful` is closed under every combinator once `stopG` is restricted to `s ≠ .budget`
-    (the model only uses `stopG` with `.fuel`, `.raised _` and `.miss _`) -/
-theorem lawfulClosed_partial (env : Env) :
-    (∀ es, Lawful (emit es))
-    ∧ (∀ s, s ≠ .budget → Lawful (stopG s))
-    ∧ (∀ {g h : Gen}, Lawful g → Lawful h → Lawful (andThen g h))
-    ∧ (∀ (f : Err → Err) {g : Gen}, Lawful g → Lawful (mapErrs f g))
-    ∧ (∀ {g : Gen} (b' : Option Nat) (k : List Err → Gen), Lawful g → (∀ es, Lawful (k es)) →
-        Lawful (inner g b' k))
-    ∧ (∀ (scope : Str) {g : Gen}, Lawful g → Lawful (withScope env scope g))
-    ∧ (∀ {rec : Rec}, (∀ i s, Lawful (rec i s)) → ∀ ref inst, Lawful (kwRef env rec ref inst)) :=
-  ⟨lawful_emit, fun _ hs => lawful_stopG hs, lawful_andThen, lawful_mapErrs,
-   fun b' k _ hk => lawful_inner b' k hk, lawful_withScope env,
-   fun hrec ref inst => lawful_kwRef env hrec ref inst⟩
-
-/-- `Lawful` for the evaluator, given the one fact the framework cannot deliver -/
-theorem lawful_eval_partial (env : Env) (impl : FmtImpl) (cfg : Cfg) (fuel : Nat)
-    (hnb : ∀ i s, NoBudget (eval env impl cfg fuel i s)) :
+/-- **the budget-prefix law** for the whole evaluator, every fuel -/
+theorem lawful_eval (env : Env) (impl : FmtImpl) (cfg : Cfg) (fuel : Nat) :
     ∀ i s, Lawful (eval env impl cfg fuel i s) :=
-  fun i s => lawful_iff.2 ⟨hnb i s, prefixLaw_eval env impl cfg fuel i s⟩
+  P_eval (lawfulClosed env) impl cfg fuel
 
 /-! ### consequences for the entry points (C04) -/
 
